@@ -276,7 +276,11 @@ func (r *result) adjustAnnotations(annotations map[string]string, plugin string)
 		delete(del, k)
 	}
 
+	// finally, apply deletions with no corresponding additions
 	for k := range del {
+		r.owners.clearAnnotation(id, k)
+		delete(create.Container.Annotations, k)
+		delete(r.reply.adjust.Annotations, k)
 		r.reply.adjust.Annotations[MarkForRemoval(k)] = ""
 	}
 
